@@ -71,7 +71,8 @@ func TestMain(m *testing.M) {
 		Level: "exploration",
 		Rule: "rapid-generated concurrent scripts: 2..6 client goroutines, each 3..10 operations drawn from UpdateParameter(p, unique value) / ParameterData(p) / Artifact(name) on a graph whose two producers depend on 4 string parameters through shared and two-level nodes (processors yield between input reads), started behind a barrier with drawn yields and GOMAXPROCS 2..16; every operation is stamped at invocation and response by one atomic logical clock. " +
 			"Oracle: porcupine.CheckOperations against the sequential model (state = vector of parameter values; ParameterData returns the current value; an artifact equals the rendering of the WHOLE vector at its linearization point) - this rules out mixtures of two states and values older than a completed update; the binary is built with -race and any race report or crash is a violation. " +
-			"Non-trivial = the history contains an artifact read overlapping >= 2 updates of different parameters issued in sequence by one other client. Distinct by script JSON (the schedule itself is not owned).",
+			"Non-trivial = the history contains an artifact read overlapping >= 2 updates of different parameters issued in sequence by one other client. Distinct by script JSON (the schedule itself is not owned). " +
+			"Sub-check typed-histories: the same over a string, a float64 (0 / -0), a point-list and a file parameter (optionally given on the command line and untouched), values repeated or unique; every typed history is counted non-trivial.",
 		Assumptions: []string{
 			"real threads: schedules are sampled, not enumerated; the race detector gives the schedule-independent part (unsynchronised accesses that overlap at all)",
 			"failing histories are printed in full; they cannot be shrunk or replayed deterministically (the replay path re-runs the script 50x)",
